@@ -345,7 +345,7 @@ func (nw *hzNet) run(lossy bool) {
 			return
 		}
 		// a round of correct code ends after a handful of messages (at most 8 seen within the registered bounds); a
-		// round that is still exchanging messages after maxDeliv events (default 20) is an endless exchange. After 10
+		// round that is still exchanging messages after maxDeliv events (default 20, plus 8 per duplicated message) is an endless exchange. After 10
 		// events the remaining messages are handled in the order sent (no more order / loss choices).
 		vAssert(nw.deliveries < nw.maxDeliv, "H07z.round_terminates: the exchange started by one gossip tick does not come to an end")
 		if nw.deliveries >= nw.maxDeliv {
@@ -479,7 +479,7 @@ func hzMain(sfx string) {
 	nw := hzSetup(n, vParam("maxgap"+sfx, 600), chain)
 	nw.drops = vParam("drops"+sfx, 1)
 	nw.dups = vParam("dups"+sfx, 0)
-	nw.maxDeliv = vParam("deliv"+sfx, 20)
+	nw.maxDeliv = vParam("deliv"+sfx, 20+8*nw.dups)
 	nw.anyOrder = vParam("fairorder"+sfx, 0) != 0
 	nw.initial()
 	union := make([]bool, n)
